@@ -162,6 +162,16 @@ func isValidBits(x int) bool {
 }
 
 func bitsFromASCII(p []byte) (WindowBits, bool) {
+	// RFC 7692 asks for a decimal integer without leading zeroes; IntFromASCII
+	// is more permissive than that (it also takes the bytes 0x3a-0x3f for digits).
+	if len(p) < 1 || len(p) > 2 || p[0] == '0' {
+		return 0, false
+	}
+	for i := 0; i < len(p); i++ {
+		if p[i] < '0' || p[i] > '9' {
+			return 0, false
+		}
+	}
 	n, ok := httphead.IntFromASCII(p)
 	if !ok || !isValidBits(n) {
 		return 0, false
